@@ -248,6 +248,15 @@ def step (d : DSt) : List String → DSt × String
       match Shuffle.drain (shSub d.shText d.files d.shParts d.shDefw) s with
       | .ok rs => ({ d with sh := some { s with cur := s.m - 1, rest := [] } }, showList "recs" rs)
       | .error e => ({ d with sh := none }, showErr e)
+  -- drained through NextChunk; the harness cuts the chunks into records (the chunks of a part tile its records)
+  | ["shdrainc"] =>
+    match d.sh with
+    | none => (d, "no-object")
+    | some s =>
+      -- the state after a full drain: cursor on the last sub-part, nothing left
+      match Shuffle.drain (shSub d.shText d.files d.shParts d.shDefw) s with
+      | .ok rs => ({ d with sh := some { s with cur := s.m - 1, rest := [] } }, showList "recs" rs)
+      | .error e => ({ d with sh := none }, showErr e)
   | ["shbf", perm] =>
     match d.sh, parsePerm perm with
     | some s, some perm =>
